@@ -117,7 +117,7 @@ var subCLI = evid.Register("cli", runCLI)
 func TestPropCLI(t *testing.T) {
 	rapid.Check(t, func(t *rapid.T) {
 		c := Case{
-			Table: gen.GenTable(t, gen.TableOpts{MaxCols: 5, MaxRows: evid.Scale(300, 600), Boundary: true, MaxBig: 2}, "t"),
+			Table: gen.GenTable(t, gen.TableOpts{MaxCols: 5, MaxRows: evid.Scale(300, 600), Boundary: true, MaxBig: 2, DupNames: true}, "t"),
 			Cfg:   ingestx.GenConfig(t, "cfg"),
 		}
 		subCLI.Check(t, c)
